@@ -17,6 +17,10 @@ CLAIMED = {
  "C03": ("M-Wire: totality of the strict decoder (fuel never exhausted), canonical form for both reader kinds, readers agree, skip length = decode length for both discard strategies, readFull segmentation lemma; tie = facts + differential run on valid/truncated/mutated/random bytes under random read segmentation", "§5 C03", "Modelled-not-verified: io.ReadFull/io.CopyN/bytes.Reader; Go stack depth is not in the model.", TECH),
  "C04": ("partial: streaming Decode accepts every input the (forced) value path accepts, with equal value and consumed length, for every schema/type/byte string (induction over types and bytes, using skip_of_decode for unknown fields); Encode = WriteValue∘ToWire call for call, error for error. The real value path decodes lazily: content inside containers that FromWire never forces is validated by neither real path — observed by the harness; D22 (top-level typedef'd container on truncated input) is a known finding", "§5 C04", "Modelled-not-verified: generated text; chunk independence rests on C03.read_segmentation_irrelevant + harness segmentation.", TECH),
  "C05": ("foreign field insertion (unknown id or other wire type, any value, any position) is a no-op for FromWire and for streaming Decode on bytes; absent optional/default/required rule (finishFields); fails-iff characterisation is the harness oracle over evolved schema pairs", "§5 C05", "Modelled-not-verified: generated text.", TECH),
+ "C06": ("partial: the accept/reject rule of top-level name reservation is exactly clash-freeness (reserveAll ↔ Nodup); goCase word-splitting lemma; witnesses that goCase is not injective and that the helper-name mangler collides (D15/D24). That emitted text is valid Go is NOT a theorem: it is decided by `go build && go vet` on every accepted random program (nested layouts, keyword/initialism/helper-name identifiers, every annotation, CLI option sets). Known findings D9, D11–D15, D21, D23, D24 (accepted but not compiling / valid but rejected)", "§5 C06",
+         "Modelled-not-verified: text/template, go/format, the Go compiler. goCase/constantName of the real generator are compared with the model on random identifiers through a verif hook.", "Lean 4 proof over naming model + factgen tie + go build oracle over random programs"),
+ "C10": ("partial: sorted-key iteration renders the same output for every iteration order of a key-distinct map (renderSorted_order_irrelevant, via mergeSort lemmas); merge-with-conflict-detection is order-independent in outcome and result; every `range <map>` site of gen/ and internal/plugin is classified (sites_classified, regenerated with go/types). Go's map iteration itself is observed: N fresh-process generations per program + permuted link orders, file hashes compared. D10/D21 known", "§5 C10",
+         "Modelled-not-verified: Go map iteration, text/template ordering, os.WriteFile.", "Lean 4 proof over order model + go/types site extraction + repeated-run hash comparison"),
  "C12": ("M-Wire envelopes: strict and legacy round trips, 3-way request classification, wrong-type rejection, response echo, streaming API accepts whatever the random-access API accepts under EVERY chunking (needs the io.ReadFull repair, finding D1, fixed in /repo); tie = facts (version constants, envelope types) + differential run of both request APIs, both responder APIs, 3 framings, random segmentation", "§5 C12", "Modelled-not-verified: io.ReadFull, io.MultiReader.", TECH),
  "C13": ("partial: theorem stream_alloc_bound (for every input and type, length-driven allocation of the streaming decoder ≤ 5·N + 1 MiB + 1 KiB), envelope_alloc_bound, frame_alloc_bound, recursion depth ≤ 3N+3, decoded counts ≤ N; witnesses for D2 (repaired) and D3 (known). Not proved: the lazy-extent bound for unforced random-access decodes; wall time. Tie: regenerated thresholds + measured TotalAlloc of every decoding API on ≤64-byte messages with huge declared lengths, compared two-sidedly with the model's prediction and with 12 MiB + 64·N", "§5 C13", "Modelled-not-verified: bytes.Buffer growth (bounded as 4·present+1024), the Go allocator, runtime.MemStats. Generated decoders' pre-sizing (D3) is a known finding.", "Lean 4 proof over cost-instrumented model + factgen tie + measured-allocation correspondence"),
  "C14": ("partial: generated Equals is reflexive, symmetric and transitive on decoded values for every schema and type (pigeonhole lemma for the one-directional set/map loops; hash and slice representations; structs with nil handling); order (in)sensitivity and nil handling; witness that duplicates break symmetry. Not proved: Equals ⇔ ValuesAreEqual(ToWire) ⇔ structural comparison (harness oracles)", "§5 C14", "Modelled-not-verified: generated text, Go map semantics for float keys (modelled: NaN ≠ NaN, +0 = −0).", TECH),
